@@ -407,6 +407,14 @@ func init() {
 			for i := 0; i < n; i++ {
 				jobs = append(jobs, Job{Variant: "plain", Mode: "db.c06", Timeout: 900, Args: js(map[string]interface{}{"Histories": hist, "MaxSnaps": maxs, "Workers": 2})})
 			}
+			// validation of the snapshot model against real SIGKILLs of a running process
+			kills, nk := 6, 2
+			if tier == "thorough" {
+				kills, nk = 40, 10
+			}
+			for i := 0; i < nk; i++ {
+				jobs = append(jobs, Job{Variant: "plain", Mode: "db.c06kill", Timeout: 900, Args: js(map[string]interface{}{"Histories": kills})})
+			}
 			return jobs
 		},
 	})
